@@ -181,3 +181,197 @@ Section Coal.
     rewrite (list_eqb_refl ocomp_eqb _ ocomp_eqb_refl), nlist_eqb_refl. reflexivity.
   Qed.
 End Coal.
+
+(* ---- the "writer" cases ------------------------------------------------------------------------ *)
+From WK Require Import Proof.ChanAppend_writer Proof.ChanAppend_run Proof.ChanAppend_pipeline.
+
+Lemma consecutive_from_app k l1 l2 :
+  consecutive_from k (l1 ++ l2) = consecutive_from k l1 && consecutive_from (k + N.of_nat (length l1)) l2.
+Proof.
+  revert k. induction l1 as [|x l1 IH]; intro k; cbn [app consecutive_from length].
+  - replace (k + N.of_nat 0) with k by lia. reflexivity.
+  - rewrite IH. replace (k + 1 + N.of_nat (length l1)) with (k + N.of_nat (S (length l1))) by lia.
+    rewrite andb_assoc. reflexivity.
+Qed.
+
+Lemma consec_bool k l : consec k l -> consecutive_from k l = true.
+Proof.
+  revert k. induction l as [|x l IH]; intros k H; cbn [consecutive_from]; [reflexivity|].
+  destruct H as [E H]. subst x. rewrite N.eqb_refl. apply IH. exact H.
+Qed.
+
+Lemma wpop_eqb_refl p : wpop_eqb p p = true.
+Proof. unfold wpop_eqb. rewrite !N.eqb_refl. reflexivity. Qed.
+
+Lemma idx_items_index base : forall n k,
+  map ps_index (map (fun i => PSend 0 (base + N.of_nat i) dflt_cmd 0 false 0 0) (seq k n))
+  = map (fun i => base + N.of_nat i) (seq k n).
+Proof. intros n k. rewrite map_map. reflexivity. Qed.
+
+Lemma consecutive_seq base : forall n k,
+  consecutive_from (base + N.of_nat k) (map (fun i => base + N.of_nat i) (seq k n)) = true.
+Proof.
+  induction n as [|n IH]; intro k; cbn [seq map consecutive_from]; [reflexivity|].
+  rewrite N.eqb_refl. replace (base + N.of_nat k + 1) with (base + N.of_nat (S k)) by lia. apply IH.
+Qed.
+
+(* the state of a writer-case replay: buffered events were recorded, the pending
+   items carry consecutive indexes ending at the next fresh index *)
+Record WMInv (s : wstate) (base : N) (recorded : list wpop) : Prop := {
+  wm_entries : entries_ok s;
+  wm_recorded : forall e, In e (buffered s) -> In (wpop_of e) recorded;
+  wm_pending : consecutive_from (base - N.of_nat (length (ws_pending s))) (map ps_index (ws_pending s)) = true;
+  wm_base : N.of_nat (length (ws_pending s)) <= base }.
+
+Lemma next_none s s' : nextAppendBatch s = (None, s') -> s' = s.
+Proof.
+  unfold nextAppendBatch. destruct (is_nil (ws_pending s)); [intro H; inversion H; reflexivity|].
+  destruct (negb (canStartAppend s)); intro H; inversion H; reflexivity.
+Qed.
+
+Lemma next_some s sq items s' :
+  nextAppendBatch s = (Some (sq, items), s') ->
+  sq = ws_next s /\ items = ws_pending s /\ ws_pending s' = [] /\ ws_next s' = ws_next s + 1
+  /\ ws_drain s' = ws_drain s /\ buffered s' = buffered s /\ (entries_ok s -> entries_ok s').
+Proof.
+  unfold nextAppendBatch. destruct (is_nil (ws_pending s)); [discriminate|].
+  destruct (negb (canStartAppend s)); [discriminate|].
+  intro H. inversion H; subst. cbn. repeat split; auto.
+Qed.
+
+Lemma writer_replay_ok : forall ops s base i recorded,
+  WMInv s base recorded ->
+  let obs := wrun (s, base) i ops in
+  length obs = length ops
+  /\ consecutive_from (ws_next s) (map fst (issued ops obs)) = true
+  /\ consecutive_from (base - N.of_nat (length (ws_pending s))) (flat_map snd (issued ops obs)) = true
+  /\ consecutive_from (ws_drain s) (map (fun p => wp_seq (fst p)) (w_events i ops obs recorded)) = true
+  /\ forallb (fun p => existsb (wpop_eqb (fst p)) (snd p)) (w_events i ops obs recorded) = true.
+Proof.
+  induction ops as [|o r IH]; intros s base i recorded I; cbn [wrun].
+  { cbn. auto. }
+  destruct I as [I1 I2 I3 I4].
+  destruct o as [n|n| |sq n| |sq n|n]; cbn [wstep].
+  - (* WEnq *)
+    set (s' := enqueuePrepared s (idx_items base (N.to_nat n))).
+    assert (I' : WMInv s' (base + n) recorded).
+    { constructor; auto.
+      - unfold s'. cbn [enqueuePrepared ws_pending]. rewrite app_length, map_app.
+        unfold idx_items. rewrite map_length, seq_length.
+        replace (base + n - N.of_nat (length (ws_pending s) + N.to_nat n))
+          with (base - N.of_nat (length (ws_pending s))) by lia.
+        rewrite consecutive_from_app, I3, map_length. cbn [andb].
+        replace (base - N.of_nat (length (ws_pending s)) + N.of_nat (length (ws_pending s))) with base by lia.
+        rewrite idx_items_index. replace base with (base + N.of_nat 0) at 1 by lia. apply consecutive_seq.
+      - unfold s'. cbn [enqueuePrepared ws_pending]. rewrite app_length. unfold idx_items.
+        rewrite map_length, seq_length. lia. }
+    destruct (IH s' (base + n) (i + 1) recorded I') as [L [A [B [C D]]]].
+    cbn [length issued combine flat_map fst snd w_events app map].
+    split; [f_equal; exact L|]. split; [exact A|]. split.
+    + unfold s' in B. cbn [enqueuePrepared ws_pending] in B. rewrite app_length in B.
+      unfold idx_items in B. rewrite map_length, seq_length in B.
+      replace (base + n - N.of_nat (length (ws_pending s) + N.to_nat n))
+        with (base - N.of_nat (length (ws_pending s))) in B by lia. exact B.
+    + split; [exact C|exact D].
+  - (* WAdmit *)
+    destruct (IH s base (i + 1) recorded (Build_WMInv _ _ _ I1 I2 I3 I4)) as [L [A [B [C D]]]].
+    cbn [length issued combine flat_map fst snd w_events app map].
+    split; [f_equal; exact L|]. auto.
+  - (* WNext *)
+    destruct (nextAppendBatch s) as [[[sq items]|] s'] eqn:NB.
+    + destruct (next_some _ _ _ _ NB) as [E1 [E2 [E3 [E4 [E5 [E6 E7]]]]]].
+      assert (I' : WMInv s' base recorded).
+      { constructor; [apply E7; exact I1|rewrite E6; exact I2|rewrite E3; reflexivity|rewrite E3; cbn; lia]. }
+      destruct (IH s' base (i + 1) recorded I') as [L [A [B [C D]]]].
+      cbn [length issued combine flat_map fst snd w_events app map wo_ok wo_seq wo_idx].
+      split; [f_equal; exact L|]. subst sq items. split.
+      * cbn [consecutive_from]. rewrite N.eqb_refl. rewrite E4 in A. exact A.
+      * split.
+        -- rewrite consecutive_from_app, I3. cbn [andb]. rewrite map_length.
+           rewrite E3 in B. cbn [length] in B.
+           replace (base - N.of_nat (length (ws_pending s)) + N.of_nat (length (ws_pending s))) with base by lia.
+           replace (base - N.of_nat 0) with base in B by lia. exact B.
+        -- rewrite E5 in C. split; [exact C|exact D].
+    + pose proof (next_none _ _ NB). subst s'.
+      destruct (IH s base (i + 1) recorded (Build_WMInv _ _ _ I1 I2 I3 I4)) as [L [A [B [C D]]]].
+      cbn [length issued combine flat_map fst snd w_events app map wo_ok].
+      split; [f_equal; exact L|]. auto.
+  - (* WRec *)
+    set (ev := Ev sq (repeat dflt_comp (N.to_nat n)) i).
+    set (s' := recordAppendCompletion s ev).
+    assert (Ew : wpop_of ev = WP sq n i).
+    { unfold wpop_of, ev. cbn [ev_seq ev_items ev_tag]. rewrite repeat_length, Nnat.N2Nat.id. reflexivity. }
+    assert (I' : WMInv s' base (WP sq n i :: recorded)).
+    { destruct (record_fields s ev) as [F1 _]. constructor.
+      - apply record_entries_ok. exact I1.
+      - intros e He. apply record_buffered in He. destruct He as [He|He]; [subst e; rewrite Ew; left; reflexivity|].
+        right. apply I2. exact He.
+      - unfold s'. rewrite F1. exact I3.
+      - unfold s'. rewrite F1. exact I4. }
+    destruct (IH s' base (i + 1) (WP sq n i :: recorded) I') as [L [A [B [C D]]]].
+    destruct (record_fields s ev) as [F1 [F2 _]].
+    cbn [length issued combine flat_map fst snd w_events app map].
+    split; [f_equal; exact L|]. unfold s' in A, B, C. rewrite F2 in A. rewrite F1 in B. rewrite record_drain in C. auto.
+  - (* WPop *)
+    destruct (popNextAppendCompletion s) as [[e|] s1] eqn:P.
+    + destruct (pop_some _ _ _ I1 P) as [Hs [Hd [Hok [Hin [Hsub _]]]]].
+      destruct (pop_fields _ _ _ P) as [F1 [F2 _]].
+      set (s' := finishAppend s1 (N.of_nat (length (ev_items e)))).
+      assert (I' : WMInv s' base recorded).
+      { constructor; [apply finish_entries_ok; exact Hok| | |].
+        - intros x Hx. unfold s' in Hx. rewrite finish_buffered in Hx. apply I2. apply Hsub. exact Hx.
+        - unfold s'. cbn [finishAppend ws_pending]. rewrite F1. exact I3.
+        - unfold s'. cbn [finishAppend ws_pending]. rewrite F1. exact I4. }
+      destruct (IH s' base (i + 1) recorded I') as [L [A [B [C D]]]].
+      cbn [length issued combine flat_map fst snd w_events app map wo_ok wo_seq wo_n wo_tag wp_seq forallb].
+      split; [f_equal; exact L|]. unfold s' in A, B, C. cbn [finishAppend ws_next ws_pending ws_drain] in A, B, C.
+      rewrite F2 in A. rewrite F1 in B. rewrite Hd in C.
+      split; [exact A|]. split; [exact B|]. split.
+      * cbn [consecutive_from]. rewrite Hs, N.eqb_refl. exact C.
+      * rewrite D, andb_true_r. apply existsb_exists. exists (wpop_of e).
+        split; [apply I2; exact Hin|]. unfold wpop_of. apply wpop_eqb_refl.
+    + pose proof (pop_none_state _ _ P). subst s1.
+      destruct (IH s base (i + 1) recorded (Build_WMInv _ _ _ I1 I2 I3 I4)) as [L [A [B [C D]]]].
+      cbn [length issued combine flat_map fst snd w_events app map wo_ok].
+      split; [f_equal; exact L|]. auto.
+  - (* WApply *)
+    set (ev := Ev sq (repeat dflt_comp (N.to_nat n)) i).
+    assert (Ew : wpop_of ev = WP sq n i).
+    { unfold wpop_of, ev. cbn [ev_seq ev_items ev_tag]. rewrite repeat_length, Nnat.N2Nat.id. reflexivity. }
+    destruct (applyAppendCompletion s ev) as [evs s'] eqn:A0.
+    destruct (apply_spec _ _ _ _ I1 A0) as [Hc [Hd [Hok [Hin [Hsub _]]]]].
+    destruct (apply_fields _ _ _ _ A0) as [F1 [F2 _]].
+    assert (I' : WMInv s' base (WP sq n i :: recorded)).
+    { constructor; [exact Hok| | |].
+      - intros e He. destruct (Hsub e He) as [E|E]; [subst e; rewrite Ew; left; reflexivity|right; apply I2; exact E].
+      - rewrite F1. exact I3.
+      - rewrite F1. exact I4. }
+    destruct (IH s' base (i + 1) (WP sq n i :: recorded) I') as [L [A [B [C D]]]].
+    cbn [length issued combine flat_map fst snd w_events app map wo_pops].
+    split; [f_equal; exact L|]. rewrite F2 in A. rewrite F1 in B.
+    split; [exact A|]. split; [exact B|]. rewrite map_app, forallb_app, map_map. cbn [fst].
+    split.
+    + rewrite consecutive_from_app, map_length, map_length. rewrite Hd in C. rewrite C, andb_true_r.
+      apply consec_bool. rewrite map_map. exact Hc.
+    + rewrite D, andb_true_r. apply forallb_forall. intros p Hp. apply in_map_iff in Hp.
+      destruct Hp as [w [Ep Hw]]. subst p. cbn [fst snd]. apply in_map_iff in Hw. destruct Hw as [e [Ee He]]. subst w.
+      apply existsb_exists. exists (wpop_of e). split; [|apply wpop_eqb_refl].
+      destruct (Hin e He) as [E|E]; [subst e; rewrite Ew; left; reflexivity|right; apply I2; exact E].
+  - (* WFin *)
+    set (s' := finishAppend s n).
+    assert (I' : WMInv s' base recorded) by (constructor; auto).
+    destruct (IH s' base (i + 1) recorded I') as [L [A [B [C D]]]].
+    cbn [length issued combine flat_map fst snd w_events app map].
+    split; [f_equal; exact L|]. auto.
+Qed.
+
+Theorem model_writer_monitor : forall hw limit ops,
+  C29_monitor (C29Writer hw limit ops (wrun (newChannelState hw limit, 0) 0 ops)) = 0.
+Proof.
+  intros hw limit ops. cbn [C29_monitor]. unfold writer_monitor.
+  assert (I : WMInv (newChannelState hw limit) 0 []).
+  { constructor; cbn; [apply entries_ok_init|intros e []|reflexivity|lia]. }
+  destruct (writer_replay_ok ops _ 0 0 [] I) as [L [A [B [C D]]]].
+  cbn [newChannelState ws_next ws_drain ws_pending length] in A, B, C.
+  rewrite L, Nat.eqb_refl, A, C, D. replace (0 - N.of_nat 0) with 0 in B by lia. rewrite B. reflexivity.
+Qed.
